@@ -469,14 +469,6 @@ impl<T: Clone + Into<Obj> + Display + Debug + 'static + MaybeSync + MaybeSend> S
     fn clone_box(&self) -> Box<dyn Stream> {
         Box::new(self.clone())
     }
-    fn len(&self) -> Option<usize> {
-        None
-    }
-    fn force(&self) -> NRes<Vec<Obj>> {
-        Err(NErr::value_error(
-            "Cannot force repeat because it's infinite".to_string(),
-        ))
-    }
     // fn pythonic_index_isize...
     // fn pythonic_slice...
     // fn reversed...
